@@ -301,11 +301,41 @@ impl Runner {
 
     /// pick a case count by tier (scaled by VERIF_SCALE, a float, if set)
     pub fn n(&self, quick: u64, thorough: u64) -> u64 {
-        let base = if self.tier == Tier::Quick {
-            quick
-        } else {
-            thorough
+        // quick tiers are fixed work sized to roughly 10-40 s on 16 cores: the per-part counts written in the checks
+        // were chosen when the parts were built; this table scales them to that budget (measured, see DESIGN.md section 10)
+        let quick_scale: u64 = match self.id.as_str() {
+            "C01" => 45,
+            "C02" => 16,
+            "C03" => 30,
+            "C04" => 160,
+            "C05" => 5,
+            "C06" => 200,
+            "C07" => 80,
+            "C08" => 80,
+            "C09" => 30,
+            "C10" => 12,
+            "C11" => 150,
+            "C12" => 14,
+            "C13" => 8,
+            "C14" => 10,
+            "C15" => 4,
+            "C16" => 10,
+            "C18" => 64,
+            "C19" => 50,
+            "C17" => 2,
+            "C20" => 24,
+            "C21" => 10,
+            "C23" => 6,
+            "C24" => 64,
+            "C25" => 80,
+            "C29" => 15,
+            "C30" => 240,
+            "C31" => 80,
+            _ => 1,
         };
+        // thorough = at least 25 times the quick work (minutes instead of seconds)
+        let q = quick * quick_scale;
+        let base = if self.tier == Tier::Quick { q } else { thorough.max(q * 25) };
         let scale: f64 = std::env::var("VERIF_SCALE")
             .ok()
             .and_then(|s| s.parse().ok())
